@@ -621,14 +621,26 @@ Close(x, s) ==
 -----------------------------------------------------------------------------
 (* LOCK, LOCKT, LOCKU, FREE_STATEID, TEST_STATEID.                         *)
 
-Lock(x, lt, rk, s, e, newo, osid, lo, lsid, otherNew) ==
+\* Byte-range locks belong to the lock-owner, so a lock-owner has at most one
+\* piece of lock state per opened file: LOCK with a new lock-owner through
+\* another open-owner of the client re-uses the lock state that the
+\* lock-owner already has on that file (it stays with the open under which it
+\* was created: share reservation, CLOSE, state ID).  reuse = FALSE is the
+\* behaviour of a server that creates a second piece of lock state instead
+\* (only used by the trace specification to follow such a server).
+LofsOfOwner(i, f, lo) == {l \in lofs : l.i = i /\ l.f = f /\ l.lo = lo}
+
+LockR(x, lt, rk, s, e, newo, osid, lo, lsid, otherNew, reuse) ==
   LET c == cx[x]
       ro == ResolveOpen(x, osid, FALSE)
       rl == ResolveLock(x, lsid)
       st1 == IF newo THEN ro.st ELSE rl.st
       o == IF newo THEN ro.r ELSE OofOf(oofs, rl.r)
       lown == IF newo THEN lo ELSE rl.r.lo
-      ex == {l \in lofs : l.i = o.i /\ l.oo = o.oo /\ l.f = o.f /\ l.lo = lown}
+      exOwn == {l \in lofs : l.i = o.i /\ l.oo = o.oo /\ l.f = o.f /\ l.lo = lown}
+      ex == IF exOwn # {} \/ ~newo \/ ~reuse THEN exOwn
+            ELSE LET any == LofsOfOwner(o.i, o.f, lown) IN
+                 IF any = {} THEN {} ELSE {CHOOSE l \in any : TRUE}
       t == LockT(lt)
       e2 == RangeEnd(rk, e)
       confl == ConflictsIn(held, o.f, o.i, lown, s, e2, t)
@@ -652,6 +664,8 @@ Lock(x, lt, rk, s, e, newo, osid, lo, lsid, otherNew) ==
           /\ Done(x, "LOCK", "OK", c.fh, [o |-> l1.o, q |-> l1.q])
           /\ reply' = [op |-> "LOCK", st |-> "OK", rsid |-> [o |-> l1.o, q |-> l1.q], confl |-> {}, f |-> o.f,
                        newState |-> (ex = {})]
+
+Lock(x, lt, rk, s, e, newo, osid, lo, lsid, otherNew) == LockR(x, lt, rk, s, e, newo, osid, lo, lsid, otherNew, TRUE)
 
 LockTest(x, lt, rk, s, e, lo) ==
   LET c == cx[x]
@@ -883,6 +897,9 @@ C20_Exclusion ==
     (h1.f = h2.f /\ h1.b = h2.b /\ ~(h1.i = h2.i /\ h1.lo = h2.lo)) => (h1.t = "S" /\ h2.t = "S")
 \* Locks exist only for lock-owners that have lock state on that file, on
 \* files that are open; one byte has one type per owner.
+\* One lock-owner has one piece of lock state per file.
+C20_OneLockState == \A a, b \in lofs : (a.i = b.i /\ a.f = b.f /\ a.lo = b.lo) => a = b
+
 C20_Accounted ==
   /\ \A h \in held : \E l \in lofs : l.i = h.i /\ l.lo = h.lo /\ l.f = h.f
   /\ \A h1, h2 \in held : (h1.f = h2.f /\ h1.b = h2.b /\ h1.i = h2.i /\ h1.lo = h2.lo) => h1 = h2
